@@ -59,10 +59,10 @@ def run(rep, tier, rng):
         model.pop("trailing", None)
         muts, shp, shx = mutants_of(rng, model, tier)
         if tier != "thorough":
-            # a sample, but every (field kind, value) pair seen at least once over all models
+            # a sample, but every (shape type, field kind, value) triple is kept
             kept = []
             for mu in muts:
-                key = mu[0]
+                key = (code, mu[0])
                 if key not in seen_fields or rng.random() < 0.45:
                     kept.append(mu)
                 seen_fields.add(key)
